@@ -443,7 +443,14 @@ def check_kinds(ck, np, pd, f, sig, vals, ints, kinds, must_work, closed, tol, c
         t = max(tol, 1e-3) if kind in ("f32", "f32scalar") else tol
         for e, o in zip(elems, o1):
             st, rv = ref_of(e)
-            if st == "ok" and not L.near(o, rv, t):
+            # an exponential-type value (Virial pressure = exp(polynomial)) carries a relative rounding error of eps * |ln value|: 1e-13 at 1e196
+            te = t
+            try:
+                if rv is not None and math.isfinite(float(rv)) and float(rv) != 0:
+                    te = max(t, 8 * 2.2e-16 * abs(math.log(abs(float(rv)))))
+            except (TypeError, ValueError, OverflowError):
+                pass
+            if st == "ok" and not L.near(o, rv, te):
                 nbad += fail({**sk, "clause": "scalars-and-arrays-alike", "how": "value"},
                                      {**detail, "argument": repr(arg)[:300], "element": e, "in_array": o, "as_scalar": rv, "tol": t})
                 break
